@@ -231,6 +231,80 @@ fn is_stmt_like(e: &syn::Expr) -> bool {
     syn::Expr::While(_) | syn::Expr::Return(_) | syn::Expr::Assign(_) | syn::Expr::Macro(_)
   ) || matches!(e, syn::Expr::Binary(b) if binop(&b.op).map_or(false, |x| x.1))
     || range_for(e).is_some()
+    || iter_for(e).is_some()
+}
+
+fn no_break(b: &syn::Block) -> bool {
+  let t = toks(b);
+  !(t.contains("break") || t.contains("continue"))
+}
+
+// the loop `while let Some(x) = <next> { body }` with the IR's own constructs:
+//   { let __go = true;
+//     while __go { let __nx = <next>;
+//                  if (match __nx { Some(_) => true, _ => false })
+//                       { let x = match __nx { Some(x) => x, _ => unreachable }; { body } }
+//                  else { __go = false; } } }
+// (`<next>` is evaluated once per iteration, the body may `return`; no `break` / `continue`)
+fn some_loop(var: &str, pre: &str, next: &str, step: &str, body: &str) -> String {
+  format!(
+    "SExpr (EBlock (Blk [{pre}SLet [\"__go\"] (EBool true); SWhile (EVar \"__go\") (Blk [SLet [\"__nx\"] ({next}); SExpr (EIf (EMatch (EVar \"__nx\") [(PCtor \"Some\" [\"_\"], EBool true); (PWild, EBool false)]) (Blk [SLet [{v}] (EMatch (EVar \"__nx\") [(PCtor \"Some\" [{v}], EVar {v}); (PWild, EBlock (Blk [SPanic \"unreachable\"] None))]); {step}SExpr (EBlock ({body}))] None) (Some (Blk [SAssign \"__go\" (EBool false)] None)))] None)] None))",
+    pre = pre,
+    next = next,
+    v = q(var),
+    step = step,
+    body = body
+  )
+}
+
+fn while_let(w: &syn::ExprWhile) -> Option<String> {
+  let l = match &*w.cond {
+    syn::Expr::Let(l) => l,
+    _ => return None,
+  };
+  let var = match &*l.pat {
+    syn::Pat::TupleStruct(ts) if ts.path.is_ident("Some") && ts.elems.len() == 1 => match &ts.elems[0] {
+      syn::Pat::Ident(i) if i.subpat.is_none() && i.by_ref.is_none() => i.ident.to_string(),
+      syn::Pat::Wild(_) => "_".to_string(),
+      _ => return None,
+    },
+    _ => return None,
+  };
+  if !no_break(&w.body) {
+    return None;
+  }
+  Some(some_loop(&var, "", &expr(&l.expr), "", &block(&w.body)))
+}
+
+// `for x in <iterable> { body }` (identifier or `_` pattern, not an integer range):
+//   { let __it = for:into_iter(<iterable>);
+//     while let Some(x) = for:next(__it) { __it = for:rest(__it); { body } } }
+// the hidden iterator is a local of the loop; `for:into_iter`, `for:next` and `for:rest` are calls to
+// the world (IntoIterator::into_iter, Iterator::next and the iterator after that call)
+fn iter_for(e: &syn::Expr) -> Option<String> {
+  let f = match e {
+    syn::Expr::ForLoop(f) => f,
+    _ => return None,
+  };
+  if range_for(e).is_some() || matches!(&*f.expr, syn::Expr::Range(_)) {
+    return None;
+  }
+  let var = match &*f.pat {
+    syn::Pat::Ident(i) if i.subpat.is_none() && i.by_ref.is_none() => i.ident.to_string(),
+    syn::Pat::Wild(_) => "_".to_string(),
+    _ => return None,
+  };
+  if !no_break(&f.body) {
+    return None;
+  }
+  let pre = format!("SLet [\"__it\"] (ECall \"for:into_iter\" [{}]); ", expr(&f.expr));
+  Some(some_loop(
+    &var,
+    &pre,
+    "ECall \"for:next\" [EVar \"__it\"]",
+    "SAssign \"__it\" (ECall \"for:rest\" [EVar \"__it\"]); ",
+    &block(&f.body),
+  ))
 }
 
 // `for i in lo..hi { body }` over a half-open integer range with an identifier (or `_`) pattern:
@@ -273,9 +347,15 @@ fn stmt_of_expr(e: &syn::Expr) -> Option<String> {
   if let Some(st) = range_for(e) {
     return Some(st);
   }
+  if let Some(st) = iter_for(e) {
+    return Some(st);
+  }
   match e {
     syn::Expr::While(w) => {
       if matches!(&*w.cond, syn::Expr::Let(_)) {
+        if let Some(st) = while_let(w) {
+          return Some(st);
+        }
         return Some(format!("SForeign {}", q(&short(e))));
       }
       Some(format!("SWhile ({}) ({})", expr(&w.cond), block(&w.body)))
